@@ -515,6 +515,36 @@ def run_content(spec, ctx):
             elif path == "apply":
                 out = list(filters.apply_filters(S.f, list(lines)))
                 check_content(path, tagged, out, dict((f, 10 ** 9) for f in flt), ctx, spec)
+        # loading content must not consume the registry: look-ups still return what was registered, and a second
+        # load of the same spec (next file of a glob, next archive) keeps the same lines
+        for n in ("f", "c", "a"):
+            ctx.count("lookups_after_content_load")
+            for comp in (getattr(S, n), getattr(I, n)):
+                now = filters.get_filters(comp, True)
+                if dict(now) != dict(flt):
+                    ctx.violation("content-load-changed-the-registered-filters", {"spec": n, "registered": flt, "lookup_after_load": dict(now)}, spec=spec)
+        if "archive" in spec["paths"]:
+            br = dr.Broker()
+            br[HostArchiveContext] = HostArchiveContext(root)
+            dr.run(dr.get_dependency_graph(I.a), broker=br)
+            prov = br.get(I.a)
+            if prov is not None:
+                check_content("archive:second-load", tagged, list(prov.content), flt, ctx, spec)
+        if "host_file" in spec["paths"]:
+            br = dr.Broker()
+            br[HostContext] = HostContext(root=root)
+            br["cleaner"] = Cleaner(None, {}, fqdn="vphost.example.com")
+            dr.run(dr.get_dependency_graph(I.f), broker=br)
+            prov = br.get(I.f)
+            if prov is not None:
+                try:
+                    out2 = prov._clean_content()
+                except Exception:
+                    out2 = None
+                if out2 is not None:
+                    check_content("host_file:second-collection", tagged, out2, flt, ctx, spec)
+                elif anymatch:
+                    ctx.violation("content-raised-though-lines-match", {"path": "host_file:second-collection", "filters": flt}, spec=spec)
         # no filter registered + filterable + host: not collected at all, nothing opened or executed
         for comp, what in ((I.nofilter, "file"), (I.nofilter_cmd, "command")):
             br = dr.Broker()
